@@ -3,7 +3,7 @@ From Coq Require Import ZArith List Bool Lia.
 From Coq Require Import String.
 From PS.model Require Import Smt Enc Ind Prog Driver.
 From PS.spec Require Import Spec.
-From PS.proofs Require Import Base C05_proof.
+From PS.proofs Require Import Base C05_proof Reach_proof.
 Import ListNotations.
 Open Scope Z_scope.
 
@@ -45,6 +45,18 @@ Proof.
   destruct (complete_on_fragment st e Hfr H1 H3 H6) as (e' & Hs & _). exact (Hun e' Hs).
 Qed.
 Print Assumptions C05_no_solution_is_truthful.
+
+(* the structural hypotheses of `fragment` (distinct task identifiers, task numbers >= 1, constraints refer to tasks
+   of the problem, positive declared horizon) hold in every state reached by a program: only the shape of the problem
+   remains to be checked *)
+Theorem C05_fragment_reachable : forall ops st,
+  reaches ops st ->
+  ps_areqs st = [] -> ps_reqs st = [] -> ps_workers st = [] ->
+  x_inds (ps_ext st) = [] -> x_bufs (ps_ext st) = [] ->
+  (forall c, In c (ps_cons st) -> c_flag c = false -> c_opt c = false /\ frag_c (c_expr c) = true) ->
+  fragment st.
+Proof. exact reachable_fragment. Qed.
+Print Assumptions C05_fragment_reachable.
 
 (* non-vacuity: a program of the fragment, and a valid schedule of it in which the optional task is left out and
    carries arbitrary times (7, 9): the witness parks it at -2 *)
